@@ -167,8 +167,17 @@ def decode_completed(writer, data, anomalies):
             if isinstance(data, bytes):
                 data = data.decode("utf8")
             lines = [l.strip() for l in data.splitlines() if l.strip()]
-            d = {lines[i][1:]: lines[i + 1] for i in range(0, len(lines) - 1, 2)}
-            if len(lines) % 2 or any(not lines[i].startswith(">") for i in range(0, len(lines), 2)):
+            d, label = {}, None
+            for l in lines:  # sequences longer than a line are wrapped
+                if l.startswith(">"):
+                    label = l[1:]
+                    d[label] = ""
+                elif label is None:
+                    anomalies.append("completed-content-not-fasta")
+                    break
+                else:
+                    d[label] += l
+            if not d or any(not v for v in d.values()):
                 anomalies.append("completed-content-not-fasta")
             return _abstract_seqs(d, anomalies)
         if w == "write_json":
